@@ -24,6 +24,11 @@ class MonitorSpec:
         self.invariants = list(invariants)       # [(name, text over self)]
         self.name = name or lock_field
         self.exempt_funcs = set(exempt_funcs)    # constructors
+        self.exempt = set()                      # {(field, function name)}: documented single-writer hand-overs
+        self.unlocked_ok = None                  # callable(eng, me) -> z3 Bool: ownership condition under which unlocked access is allowed (R3)
+        self.unlocked_fields = set()             # protected fields that may also be written without the lock
+        self.assumed = []                        # [(name, text)] assumed with the invariant, never proved
+        self.wait_post = None                    # text assumed after wait(): the notifiers' guarantee (their side is an obligation)
 
 
 def lock_of(eng, v):
@@ -67,7 +72,7 @@ class MonitorHook:
                 eng.state.heap[(me.oid, f)] = havoc_like(eng, cur, "mon.%s" % f, ty if cur is None else None)
             eng.assuming = True
             try:
-                for nm, text in sp.invariants:
+                for nm, text in sp.invariants + sp.assumed:
                     eng.assume(eng.truth(eng.eval_spec(text, {"self": me}, me.cls.split(".")[0])))
                 con = eng.reg.contract(eng.cur_func_qual() or "")
                 env = dict(getattr(eng, "entry_env", None) or {"self": me})
@@ -131,12 +136,18 @@ class MonitorHook:
             return
         if eng.cur_func.split(".")[-1] == "__init__":
             return
+        fname = eng.cur_func.split("@")[0].split(".")[-1]
         for sp in self.specs:
             if field in sp.protected and eng.cur_func not in sp.exempt_funcs:
+                if (field, fname) in sp.exempt or field in sp.unlocked_fields:
+                    continue
                 lv = eng.state.heap.get((me.oid, sp.lock_field))
                 lock = lock_of(eng, lv) if lv is not None else None
-                ok = lock is not None and self.held(eng).get(lock.oid, 0) > 0
-                eng.oblige("%s/R1[%s]:%s-written-with-lock-held" % (eng.cur_func, sp.name, field), z3.BoolVal(ok),
+                ok = z3.BoolVal(lock is not None and self.held(eng).get(lock.oid, 0) > 0)
+                uo = getattr(sp, "field_unlocked_ok", {}).get(field, sp.unlocked_ok)
+                if uo is not None:
+                    ok = z3.Or(ok, uo(eng, me))
+                eng.oblige("%s/R1[%s]:%s-written-with-lock-held" % (eng.cur_func, sp.name, field), ok,
                            clause="every write to self.%s happens with self.%s held" % (field, sp.lock_field), kind="discipline")
 
     def on_attr_write(self, eng, obj=None, field=None, val=None, node=None):
@@ -195,6 +206,10 @@ def install_threading(reg, hook_getter):
         if hook is not None:
             hook.oblige_inv(eng, lock, "wait")
             hook.havoc_assume(eng, lock)
+            me = hook.self_getter(eng)
+            for sp in hook.specs_for(eng, lock):
+                if sp.wait_post:
+                    eng.assume(eng.truth(eng.eval_spec(sp.wait_post, {"self": me}, me.cls.split(".")[0])))
         return VBool(True)
 
     def cv_notify(eng, recv, args, result):
@@ -216,6 +231,7 @@ def install_threading(reg, hook_getter):
                 return VBool(False)
         if hook is not None:
             hook.acquire(eng, lock)
+        eng.state.ghost["acquired:%d" % recv.oid] = True
         return VBool(True)
 
     def lk_release(eng, recv, args, result):
